@@ -92,8 +92,9 @@ func run(c *Case, out *Out) {
 	var parkedEv int32
 	evRelease := make(chan struct{})
 	var evMu sync.Mutex
+	var draining int32
 	piece.VerifYield = func(point string, index uint32) {
-		if point == "Expire.bytes" {
+		if point == "Expire.bytes" && atomic.LoadInt32(&draining) == 0 {
 			evMu.Lock()
 			ch := evRelease
 			evMu.Unlock()
@@ -331,6 +332,7 @@ func run(c *Case, out *Out) {
 		}
 	}
 	// let everything parked go, then delete the torrents: every byte must come back
+	atomic.StoreInt32(&draining, 1)
 	if passCh != nil {
 		select {
 		case passRelease <- struct{}{}:
@@ -341,6 +343,7 @@ func run(c *Case, out *Out) {
 		default:
 		}
 	}
+	passParkedNow = false
 	evMu.Lock()
 	close(evRelease)
 	evRelease = make(chan struct{})
